@@ -23,7 +23,7 @@ EXPLANATION = (
     "explicit length-1 axes, full shape; mixed signs, fractional values, |s| >= N): the zero-fill stores recorded from the "
     "extracted loop are expanded to the set of (time index, sample element) pairs and must equal exactly the set the statement "
     "prescribes (first ceil(s) samples for s > 0, last ceil(|s|) for s < 0, for every element the shift broadcasts to); the crop "
-    "bounds of crop=True must be max ceil / min floor over the elements.  DFT accuracy is not decided."
+    "bounds of crop=True must be max ceil / min floor over the elements.  For concrete per-element shift arrays on symbolic-length signals the element index of the shift must sit on the matching sample axis of the result term and every element must carry its own ramp; coverage cases are also generated beyond every size literal the function compares against, and zero sets are read from the returned data (index stores or explicit np.where masks). DFT accuracy is not decided."
 )
 
 
